@@ -97,7 +97,9 @@ func notNeeded(date string, todo work) bool {
 	}
 	// maybe the report is already in todo.readyfiles
 	for _, f := range todo.readyfiles {
-		if strings.Contains(f, date) {
+		// Look at the file name only: readyfiles holds absolute paths, and
+		// the telemetry directory's own path may contain a date.
+		if strings.Contains(filepath.Base(f), date) {
 			return true
 		}
 	}
